@@ -12,6 +12,7 @@ package main
 import (
 	"fmt"
 	"go/token"
+	"sync"
 	"go/types"
 	"sort"
 	"strings"
@@ -68,6 +69,12 @@ type Enc struct {
 	Covers    []*Obl // reachability covers (must be sat)
 	FuncsSeen map[string]bool
 	modsetMemo map[*ssa.Function]map[string]*Sort
+	modsetDone map[*ssa.Function]bool
+	whoMemo    map[*ssa.Function]map[string]*who
+	unknownWhy map[string]bool
+	factVars   []map[string]*Sort
+	factVarsOnce sync.Once
+	modsetVisit func(fn *ssa.Function)
 	funDecls   []string
 	topParams  []ceParam
 	topFrame   *Frame
@@ -480,10 +487,26 @@ func (f *Frame) analyse() []*ssa.BasicBlock {
 		hdrs = append(hdrs, h)
 	}
 	// loop ordinals in source order of the header's position
+	// loop ordinals follow source order: smallest source position of any
+	// instruction inside the loop (an enclosing loop comes before its inner loops)
+	loopPos := func(h int) token.Pos {
+		best := token.NoPos
+		for bi := range f.loops[h].blocks {
+			for _, in := range fn.Blocks[bi].Instrs {
+				if p := in.Pos(); p.IsValid() && (!best.IsValid() || p < best) {
+					best = p
+				}
+			}
+		}
+		return best
+	}
 	sort.Slice(hdrs, func(i, j int) bool {
-		pi, pj := blockPos(fn.Blocks[hdrs[i]]), blockPos(fn.Blocks[hdrs[j]])
+		pi, pj := loopPos(hdrs[i]), loopPos(hdrs[j])
 		if pi != pj {
 			return pi < pj
+		}
+		if ni, nj := len(f.loops[hdrs[i]].blocks), len(f.loops[hdrs[j]].blocks); ni != nj {
+			return ni > nj
 		}
 		return hdrs[i] < hdrs[j]
 	})
@@ -715,7 +738,7 @@ func (f *Frame) enterLoop(li *loopInfo, b *ssa.BasicBlock) {
 	}
 	st := f.st.Clone()
 	precise := f.loopPreciseKeys(li)
-	allocPre := f.st.Get(allocKey, ArrayS(IntS, BoolS))
+	allocPre := f.st.Get(allocKey, allocSort)
 	f.E.noteVars(allocPre)
 	for _, k := range sortedKeys(li.modkeys) {
 		s := li.modkeys[k]
@@ -733,7 +756,7 @@ func (f *Frame) enterLoop(li *loopInfo, b *ssa.BasicBlock) {
 			nv := f.fresh("hv$"+k, s)
 			ob := Bound{Name: "o!lf", S: IntS}
 			ov := Var(ob.Name, IntS)
-			conds := []*Term{Select(allocPre, ov)}
+			conds := []*Term{allocatedIn(allocPre, ov)}
 			for _, o := range pk.objs {
 				conds = append(conds, Neq(ov, f.val(o).X))
 			}
@@ -745,11 +768,9 @@ func (f *Frame) enterLoop(li *loopInfo, b *ssa.BasicBlock) {
 	}
 	if _, ok := li.modkeys[allocKey]; ok {
 		// allocation only grows
-		rb := Bound{Name: "r!alloc", S: IntS}
-		rv := Var(rb.Name, IntS)
-		oldA := f.st.Get(allocKey, ArrayS(IntS, BoolS))
+		oldA := f.st.Get(allocKey, allocSort)
 		f.E.noteVars(oldA)
-		f.assume(Forall([]Bound{rb}, Implies(Select(oldA, rv), Select(st.Get(allocKey, ArrayS(IntS, BoolS)), rv))), "allocated objects stay allocated")
+		f.assume(Ge(st.Get(allocKey, allocSort), oldA), "allocated objects stay allocated")
 	}
 	f.st = st
 	for _, nv := range li.phiNew {
